@@ -122,6 +122,10 @@ NAMES = {
     "dash": {"x": "a-b", "k": "k-cat", "v1": "v-1", "d": "d-1"},
     "space": {"x": "a b", "k": "k cat", "v1": "v 1", "d": "d 1"},
     "keyword": {"x": "class", "k": "lambda", "v1": "def", "d": "in"},
+    # names the code generator behind sbml.read makes up itself (init_<name> for initial assignments, ...)
+    "internal-y": {"x": "x", "k": "k", "v1": "v1", "d": "init_y"},
+    "internal-p": {"x": "x", "k": "k", "v1": "v1", "d": "init_p"},
+    "internal-fn": {"x": "x", "k": "k", "v1": "ma1", "d": "add2"},
 }
 COEFS = ["one", "two", "half", "neghalf", "pname", "pcomp", "ncomp"]
 DERIVED = ["none", "dpar", "dvar", "coef2"]
@@ -251,8 +255,11 @@ def generate(tier):
         for coef, derived, ia, law, names in it.product(COEFS, DERIVED, IAS, range(nlaws), ("plain", "dunder")):
             add(coef, derived, ia, law, names)
         # ... and every variant that needs escaping on a sub-product
+        for names in ("internal-y", "internal-p", "internal-fn"):
+            for coef, derived, ia, law in it.product(("one", "pcomp"), ("dpar", "dvar"), IAS, (0, 2, 12, 23)):
+                add(coef, derived, ia, law, names)
         for names in NAMES:
-            if names in ("plain", "dunder"):
+            if names in ("plain", "dunder") or names.startswith("internal"):
                 continue
             if tier == "thorough":  # every identifier variant on the whole structural product
                 for coef, derived, ia, law in it.product(COEFS, DERIVED, IAS, range(nlaws)):
